@@ -979,4 +979,409 @@ theorem compress_is_spec (d line : Bytes) (hd : d ≠ []) (f0 : Bytes) (rest : L
           exact hidx
         simp [this]
 
+/-! ## 6. the scanner is context-free at field boundaries
+
+Re-scanning text made of fields and delimiters finds exactly those delimiters: this is what makes
+`-r` (the printed slice is scanned again by `replace`) and `-p` (the compressed record is split
+again) agree with the specification. -/
+
+theorem not_isPrefixOf_iff {d l : Bytes} : ¬ d.isPrefixOf l = true ↔ ¬ d <+: l := by
+  rw [List.isPrefixOf_iff_prefix]
+
+theorem splitAux_cur (d : Bytes) :
+    ∀ (l cur : Bytes), splitAux d 0 cur l = (splitAux d 0 [] l).modifyHead (cur ++ ·) := by
+  intro l
+  induction l with
+  | nil => intro cur; simp [splitAux]
+  | cons c t ih =>
+    intro cur
+    simp only [splitAux]
+    by_cases hp : d.isPrefixOf (c :: t) = true
+    · rw [if_pos hp, if_pos hp]; simp
+    · rw [if_neg hp, if_neg hp, ih (cur ++ [c]), ih ([] ++ [c]), List.modifyHead_modifyHead]
+      congr 1
+      funext x
+      simp
+
+theorem splitAux_skip (d : Bytes) :
+    ∀ (l : Bytes) (k : Nat), k ≤ l.length → splitAux d k [] l = splitAux d 0 [] (l.drop k) := by
+  intro l
+  induction l with
+  | nil => intro k hk; simp at hk; subst hk; rfl
+  | cons c t ih =>
+    intro k hk
+    cases k with
+    | zero => rfl
+    | succ k' =>
+      simp only [splitAux, List.drop_succ_cons]
+      exact ih k' (by simp at hk; omega)
+
+/-- the scanner at an occurrence: an empty field, then what follows the occurrence -/
+theorem splitFields_of_prefix (d l : Bytes) (hd : d ≠ []) (h : d <+: l) :
+    splitFields d l = [] :: splitFields d (l.drop d.length) := by
+  have hdpos := length_pos_of_ne_nil hd
+  have hlen := h.length_le
+  cases l with
+  | nil =>
+    have : d.length ≤ 0 := hlen
+    omega
+  | cons c t =>
+    have hp : d.isPrefixOf (c :: t) = true := List.isPrefixOf_iff_prefix.mpr h
+    unfold splitFields
+    simp only [splitAux]
+    rw [if_pos hp, splitAux_skip d t (d.length - 1) (by simp at hlen; omega)]
+    congr 2
+    have : d.length = (d.length - 1) + 1 := by omega
+    rw [this, List.drop_succ_cons]
+    simp
+
+/-- the scanner away from an occurrence: the byte joins the first field of the rest -/
+theorem splitFields_cons_of_not_prefix (d : Bytes) (c : UInt8) (t : Bytes) (h : ¬ d <+: c :: t) :
+    splitFields d (c :: t) = (splitFields d t).modifyHead (c :: ·) := by
+  have hp : ¬ d.isPrefixOf (c :: t) = true := not_isPrefixOf_iff.mpr h
+  unfold splitFields
+  simp only [splitAux]
+  rw [if_neg hp, splitAux_cur d t ([] ++ [c])]
+  congr 1
+
+/-- `f` can be a field that is followed by a delimiter: no occurrence starts inside `f`, even
+    one that would run into the delimiter that follows -/
+def Field (d : Bytes) : Bytes → Prop
+  | [] => True
+  | c :: f => ¬ d <+: (c :: f ++ d) ∧ Field d f
+
+/-- `f` can be the last field: it contains no occurrence -/
+def NoOcc (d : Bytes) : Bytes → Prop
+  | [] => True
+  | c :: f => ¬ d <+: (c :: f) ∧ NoOcc d f
+
+theorem Field.noOcc {d : Bytes} : ∀ {f : Bytes}, Field d f → NoOcc d f
+  | [], _ => trivial
+  | c :: f, h => ⟨fun hp => h.1 (hp.trans (List.prefix_append (c :: f) d)), Field.noOcc h.2⟩
+
+theorem splitFields_field_append (d : Bytes) (hd : d ≠ []) :
+    ∀ (f rest : Bytes), Field d f → splitFields d (f ++ d ++ rest) = f :: splitFields d rest
+  | [], rest, _ => by
+    rw [List.nil_append, splitFields_of_prefix d _ hd (List.prefix_append d rest),
+      List.drop_left' rfl]
+  | c :: f, rest, h => by
+    have hnp : ¬ d <+: c :: (f ++ d ++ rest) := by
+      intro hp
+      apply h.1
+      have h2 : (c :: f ++ d) <+: c :: (f ++ d ++ rest) := by
+        have := List.prefix_append (c :: f ++ d) rest
+        simp
+      exact List.prefix_of_prefix_length_le hp h2 (by simp; omega)
+    have ih := splitFields_field_append d hd f rest h.2
+    show splitFields d (c :: (f ++ d ++ rest)) = _
+    rw [splitFields_cons_of_not_prefix d c _ hnp, ih]
+    rfl
+
+theorem splitFields_noOcc (d : Bytes) : ∀ (f : Bytes), NoOcc d f → splitFields d f = [f]
+  | [], _ => rfl
+  | c :: f, h => by
+    rw [splitFields_cons_of_not_prefix d c f h.1, splitFields_noOcc d f h.2]
+    rfl
+
+/-- a list of fields: every one but the last can be followed by a delimiter, the last has no
+    occurrence -/
+def FieldsOK (d : Bytes) : List Bytes → Prop
+  | [] => True
+  | [f] => NoOcc d f
+  | f :: g :: t => Field d f ∧ FieldsOK d (g :: t)
+
+theorem FieldsOK.tail {d f : Bytes} {t : List Bytes} (h : FieldsOK d (f :: t)) : FieldsOK d t := by
+  cases t with
+  | nil => trivial
+  | cons g t' => exact h.2
+
+theorem FieldsOK.cons {d f : Bytes} {t : List Bytes} (hf : Field d f) (ht : FieldsOK d t) :
+    FieldsOK d (f :: t) := by
+  cases t with
+  | nil => exact hf.noOcc
+  | cons g t' => exact ⟨hf, ht⟩
+
+theorem FieldsOK.head {d f : Bytes} {t : List Bytes} (h : FieldsOK d (f :: t)) (ht : t ≠ []) :
+    Field d f := by
+  cases t with
+  | nil => exact absurd rfl ht
+  | cons g t' => exact h.1
+
+/-- **the fields of a split are fields** -/
+theorem splitFields_fieldsOK (d : Bytes) (hd : d ≠ []) :
+    ∀ (n : Nat) (l : Bytes), l.length ≤ n → FieldsOK d (splitFields d l) := by
+  have hdpos := length_pos_of_ne_nil hd
+  intro n
+  induction n with
+  | zero =>
+    intro l hl
+    have : l = [] := List.eq_nil_of_length_eq_zero (by omega)
+    subst this
+    exact trivial
+  | succ n ih =>
+    intro l hl
+    cases l with
+    | nil => exact trivial
+    | cons c t =>
+      by_cases hp : d <+: c :: t
+      · rw [splitFields_of_prefix d _ hd hp]
+        have := ih ((c :: t).drop d.length) (by simp at hl ⊢; omega)
+        exact FieldsOK.cons trivial this
+      · rw [splitFields_cons_of_not_prefix d c t hp]
+        have iht := ih t (by simp at hl; omega)
+        have hrec := fields_reconstruct d t hd
+        cases hs : splitFields d t with
+        | nil => exact absurd hs (splitFields_ne_nil d t)
+        | cons h0 more =>
+          rw [hs] at iht hrec
+          cases more with
+          | nil =>
+            have : h0 = t := hrec
+            subst this
+            exact ⟨hp, iht⟩
+          | cons g t' =>
+            refine ⟨⟨?_, iht.1⟩, iht.2⟩
+            intro hp'
+            apply hp
+            rw [joinWith_cons_cons] at hrec
+            rw [← hrec]
+            have : (c :: h0 ++ d) <+: c :: (h0 ++ d ++ joinWith d (g :: t')) := by
+              have := List.prefix_append (c :: h0 ++ d) (joinWith d (g :: t'))
+              simp
+            exact hp'.trans this
+
+theorem splitFields_ok (d line : Bytes) (hd : d ≠ []) : FieldsOK d (splitFields d line) :=
+  splitFields_fieldsOK d hd line.length line (Nat.le_refl _)
+
+/-- **re-splitting a join of fields gives the fields back** -/
+theorem splitFields_joinWith (d : Bytes) (hd : d ≠ []) :
+    ∀ (fs : List Bytes), fs ≠ [] → FieldsOK d fs → splitFields d (joinWith d fs) = fs
+  | [], h, _ => absurd rfl h
+  | [f], _, h => splitFields_noOcc d f h
+  | f :: g :: t, _, h => by
+    rw [joinWith_cons_cons, splitFields_field_append d hd f _ h.1,
+      splitFields_joinWith d hd (g :: t) (by simp) h.2]
+
+theorem FieldsOK.compress {d : Bytes} : ∀ {fs : List Bytes}, FieldsOK d fs → FieldsOK d (compressFields fs)
+  | [], _ => trivial
+  | [_], h => h
+  | f :: g :: t, h => by
+    simp only [compressFields]
+    split
+    · exact FieldsOK.compress h.2
+    · exact FieldsOK.cons h.1 (FieldsOK.compress h.2)
+
+theorem FieldsOK.cons_compress {d f0 : Bytes} {rest : List Bytes} (h : FieldsOK d (f0 :: rest)) :
+    FieldsOK d (f0 :: compressFields rest) := by
+  cases rest with
+  | nil => exact h
+  | cons g t => exact FieldsOK.cons h.1 (FieldsOK.compress h.2)
+
+/-- **C01, `-p`, second half.**  Splitting the compressed record gives the compressed fields. -/
+theorem compress_resplit (d line : Bytes) (hd : d ≠ []) (f0 : Bytes) (rest : List Bytes)
+    (hs : splitFields d line = f0 :: rest) :
+    splitFields d (compressDelimiter line d []) = f0 :: compressFields rest := by
+  rw [compress_is_spec d line hd f0 rest hs]
+  apply splitFields_joinWith d hd _ (by simp)
+  have := splitFields_ok d line hd
+  rw [hs] at this
+  exact this.cons_compress
+
+/-- the engine tokenises the compressed record; the specification compresses the tokens -/
+theorem tokenize_compress (d line : Bytes) (hd : d ≠ []) (g : Bool) :
+    tokenize d g true line = tokenize d g false (compressDelimiter line d []) := by
+  cases hs : splitFields d line with
+  | nil => exact absurd hs (splitFields_ne_nil d line)
+  | cons f0 rest =>
+    unfold tokenize
+    rw [compress_resplit d line hd f0 rest hs, hs]
+    simp
+
+theorem compress_ne_nil (d line : Bytes) (hd : d ≠ []) (hline : line ≠ []) :
+    compressDelimiter line d [] ≠ [] := by
+  cases hs : splitFields d line with
+  | nil => exact absurd hs (splitFields_ne_nil d line)
+  | cons f0 rest =>
+    rw [compress_is_spec d line hd f0 rest hs]
+    cases rest with
+    | nil =>
+      have := fields_reconstruct d line hd
+      rw [hs] at this
+      simp only [compressFields, joinWith] at this ⊢
+      rw [this]; exact hline
+    | cons g t =>
+      have hne := compressFields_ne_nil (g :: t) (by simp)
+      rw [joinWith_cons_of_ne_nil _ _ _ hne]
+      intro h
+      have hl := congrArg List.length h
+      have := length_pos_of_ne_nil hd
+      simp only [List.length_append, List.length_nil] at hl
+      omega
+
+/-! ### `replace` is "split, then join with the replacement" -/
+
+theorem replaceMatches_eq (text r : Bytes) (dlen : Nat) :
+    ∀ (ms : List Nat) (prev : Nat),
+      replaceMatches text r prev (ms.map fun i => (i, i + dlen)) =
+        joinWith r (contents text (rangesBetween dlen text.length prev ms)) := by
+  intro ms
+  induction ms with
+  | nil => intro prev; simp [replaceMatches, rangesBetween, contents, joinWith, slice_to_end]
+  | cons idx t ih =>
+    intro prev
+    simp only [List.map_cons, replaceMatches, rangesBetween, contents]
+    rw [ih, joinWith_cons_of_ne_nil]
+    simpa [contents] using rangesBetween_ne_nil _ _ _ t
+
+theorem replaceAll_eq (text d r : Bytes) (hd : d ≠ []) :
+    replaceAll text d r = joinWith r (splitFields d text) := by
+  unfold replaceAll
+  rw [replaceMatches_eq]
+  by_cases ht : text = []
+  · subst ht
+    simp [findIter, findIterAux, isEmpty_eq_false_of_ne_nil hd, rangesBetween, contents, slice,
+      splitFields, splitAux]
+  · have := fields_are_contents d text hd ht
+    unfold fillWithFieldsLocations at this
+    rw [isEmpty_eq_false_of_ne_nil ht] at this
+    simp only [Bool.false_eq_true, if_false] at this
+    rw [← this]
+
+/-! ### tokens -/
+
+/-- a (part of a) token list: every field but the last can be followed by a delimiter, every
+    separator after the first entry is made of at least one occurrence -/
+def TokOK (d : Bytes) : List (Nat × Bytes) → Prop
+  | [] => True
+  | [(_, f)] => NoOcc d f
+  | (_, f) :: (k, g) :: t => Field d f ∧ 1 ≤ k ∧ TokOK d ((k, g) :: t)
+
+theorem TokOK.tail {d : Bytes} {x : Nat × Bytes} {t : List (Nat × Bytes)} (h : TokOK d (x :: t)) :
+    TokOK d t := by
+  cases t with
+  | nil => trivial
+  | cons y t' => exact h.2.2
+
+theorem TokOK.drop {d : Bytes} : ∀ {l : List (Nat × Bytes)} (n : Nat), TokOK d l → TokOK d (l.drop n)
+  | _, 0, h => h
+  | [], _ + 1, _ => trivial
+  | _ :: t, n + 1, h => TokOK.drop (l := t) n h.tail
+
+theorem TokOK.take {d : Bytes} : ∀ {l : List (Nat × Bytes)} (n : Nat), TokOK d l → TokOK d (l.take n)
+  | _, 0, _ => trivial
+  | [], _ + 1, _ => trivial
+  | [_], _ + 1, h => by simpa using h
+  | (k0, f) :: (k, g) :: t, n + 1, h => by
+    have ih := TokOK.take (l := (k, g) :: t) n h.2.2
+    cases n with
+    | zero => exact h.1.noOcc
+    | succ n' =>
+      simp only [List.take_succ_cons] at ih ⊢
+      exact ⟨h.1, h.2.1, ih⟩
+
+theorem tokOK_plain {d : Bytes} (k0 : Nat) :
+    ∀ (f : Bytes) (rest : List Bytes), FieldsOK d (f :: rest) →
+      TokOK d ((k0, f) :: rest.map fun g => (1, g))
+  | _, [], h => h
+  | _, g :: t, h => ⟨h.1, Nat.le_refl 1, tokOK_plain 1 g t h.2⟩
+
+theorem tokOK_greedy {d : Bytes} :
+    ∀ (rest : List Bytes) (k0 k : Nat) (f : Bytes), 1 ≤ k → FieldsOK d (f :: rest) →
+      TokOK d ((k0, f) :: greedyMerge k rest)
+  | [], _, _, _, _, h => h
+  | [g], _, _, _, hk, h => ⟨h.1, hk, h.2⟩
+  | g :: g' :: t, k0, k, f, hk, h => by
+    simp only [greedyMerge]
+    split
+    · exact tokOK_greedy (g' :: t) k0 (k + 1) f (by omega) ⟨h.1, h.2.2⟩
+    · have := tokOK_greedy (g' :: t) k 1 g (Nat.le_refl 1) h.2
+      cases hg : greedyMerge 1 (g' :: t) with
+      | nil => rw [hg] at this; exact ⟨h.1, hk, this⟩
+      | cons y ys => rw [hg] at this; exact ⟨h.1, hk, this⟩
+
+/-- the tokens of a record (without `-p`; with `-p` see `tokenize_compress`) are well formed -/
+theorem tokenize_ok (d line : Bytes) (hd : d ≠ []) (g : Bool) :
+    TokOK d ((0, (tokenize d g false line).first) :: (tokenize d g false line).rest) := by
+  have hok := splitFields_ok d line hd
+  unfold tokenize
+  cases hs : splitFields d line with
+  | nil => exact absurd hs (splitFields_ne_nil d line)
+  | cons f0 rest =>
+    rw [hs] at hok
+    cases g with
+    | true => simpa using tokOK_greedy rest 0 1 f0 (Nat.le_refl 1) hok
+    | false => simpa using tokOK_plain 0 f0 rest hok
+
+/-- the plain fields behind a token list: a separator of `k` occurrences hides `k - 1` empty
+    fields -/
+def expandToks : List (Nat × Bytes) → List Bytes
+  | [] => []
+  | (k, g) :: t => List.replicate (k - 1) [] ++ g :: expandToks t
+
+theorem splitFields_repeat (d : Bytes) (hd : d ≠ []) (x : Bytes) :
+    ∀ (j : Nat), splitFields d (repeatBytes d j ++ x) = List.replicate j [] ++ splitFields d x
+  | 0 => by simp [repeatBytes]
+  | j + 1 => by
+    have := splitFields_field_append d hd [] (repeatBytes d j ++ x) trivial
+    simp only [List.nil_append] at this
+    show splitFields d (d ++ repeatBytes d j ++ x) = _
+    rw [List.append_assoc, this, splitFields_repeat d hd x j, List.replicate_succ]
+    rfl
+
+theorem splitFields_toks (d : Bytes) (hd : d ≠ []) :
+    ∀ (more : List (Nat × Bytes)) (k0 : Nat) (f : Bytes), TokOK d ((k0, f) :: more) →
+      splitFields d (f ++ more.flatMap (sepField d)) = f :: expandToks more
+  | [], _, f, h => by simpa [expandToks] using splitFields_noOcc d f h
+  | (k, g) :: more, _, f, h => by
+    obtain ⟨hf, hk, hrest⟩ := h
+    obtain ⟨j, rfl⟩ : ∃ j, k = j + 1 := ⟨k - 1, by omega⟩
+    have ih := splitFields_toks d hd more (j + 1) g hrest
+    have e : f ++ ((j + 1, g) :: more).flatMap (sepField d) =
+        f ++ d ++ (repeatBytes d j ++ (g ++ more.flatMap (sepField d))) := by
+      simp [sepField, repeatBytes, List.append_assoc]
+    rw [e, splitFields_field_append d hd f _ hf, splitFields_repeat d hd _ j, ih]
+    simp [expandToks]
+
+theorem flatMap_replicate_nil (r : Bytes) : ∀ (j : Nat),
+    (List.replicate j ([] : Bytes)).flatMap (fun g => r ++ g) = repeatBytes r j
+  | 0 => rfl
+  | j + 1 => by
+    rw [List.replicate_succ, List.flatMap_cons, flatMap_replicate_nil r j]
+    simp [repeatBytes]
+
+theorem expandToks_flatMap (d r : Bytes) :
+    ∀ (more : List (Nat × Bytes)) (k0 : Nat) (f : Bytes), TokOK d ((k0, f) :: more) →
+      (expandToks more).flatMap (fun g => r ++ g) = more.flatMap (sepField r)
+  | [], _, _, _ => rfl
+  | (k, g) :: more, _, f, h => by
+    obtain ⟨_, hk, hrest⟩ := h
+    obtain ⟨j, rfl⟩ : ∃ j, k = j + 1 := ⟨k - 1, by omega⟩
+    have ih := expandToks_flatMap d r more (j + 1) g hrest
+    simp only [expandToks, List.flatMap_append, List.flatMap_cons, flatMap_replicate_nil, ih,
+      sepField, Nat.add_sub_cancel]
+    rw [← repeatBytes_succ']
+    simp [List.append_assoc]
+
+/-- **C01, `-r`.**  Replacing the delimiter in text made of well-formed tokens replaces exactly
+    the separators, occurrence by occurrence. -/
+theorem replaceAll_toks (d r : Bytes) (hd : d ≠ []) (k0 : Nat) (f : Bytes)
+    (more : List (Nat × Bytes)) (h : TokOK d ((k0, f) :: more)) :
+    replaceAll (f ++ more.flatMap (sepField d)) d r = f ++ more.flatMap (sepField r) := by
+  rw [replaceAll_eq _ d r hd, splitFields_toks d hd more k0 f h, joinWith_cons_flatMap,
+    expandToks_flatMap d r more k0 f h]
+
+theorem pieceText_replace (d r : Bytes) (hd : d ≠ []) (tok : Tok)
+    (h : TokOK d ((0, tok.first) :: tok.rest)) (lo hi : Nat) :
+    replaceAll (pieceText (repeatBytes d) tok lo hi) d r = pieceText (repeatBytes r) tok lo hi := by
+  unfold pieceText
+  have hsel := (h.drop (lo - 1)).take (hi - lo + 1)
+  simp only []
+  generalize List.take (hi - lo + 1) (List.drop (lo - 1) ((0, tok.first) :: tok.rest)) = sel at hsel
+  cases sel with
+  | nil =>
+    simp [replaceAll_eq _ d r hd, splitFields, splitAux, joinWith]
+  | cons x more =>
+    obtain ⟨k0, f⟩ := x
+    exact replaceAll_toks d r hd k0 f more hsel
+
 end Tuc
